@@ -42,7 +42,7 @@ META = {
     "level_note": "Trusted: ComputationCache as the fitness lookup (table-driven fitness functions); width tolerance 1e-7 on the draw axis.",
 }
 PLAN = {
-    "quick": {"shards": 12, "examples": 3600},
+    "quick": {"shards": 12, "examples": 3000},
     "thorough": {"shards": 16, "examples": 150000, "timeout": 3000},
 }
 
